@@ -45,7 +45,7 @@ Plan gen_sched_plan(const std::string &prop, uint64_t seed, int64_t run) {
             if (n++ >= maxsteps) break;
             Step c = s; c.task = t;
             p.steps.push_back(c);
-            if (r.chance(1, 6)) { Step x; x.task = t; static const char *extra[] = {"compare", "minify", "print", "ptr_find", "dup", "sort", "print", "parse_bad", "parse_bad"}; x.op = extra[r.below(9)]; x.a = {R(r), R(r), R(r), R(r), R(r)}; p.steps.push_back(x); }
+            if (r.chance(1, 6)) { Step x; x.task = t; static const char *extra[] = {"compare", "minify", "print", "ptr_find", "dup", "sort", "print", "parse_bad", "parse_bad", "utils_ci"}; x.op = extra[r.below(10)]; x.a = {R(r), R(r), R(r), R(r), R(r)}; p.steps.push_back(x); }
         }
     }
     // schedule: at each yield one entry is consumed: -1 keep running, k >= 0 switch to runnable[k mod #runnable]
